@@ -58,7 +58,8 @@ theorem firstByte_succ_zero (f : Nat) (r : Reader) (br : BufRd)
 theorem firstByte_spec {inp : List UInt8} : ∀ (fuel : Nat) (r : Reader), FB inp r →
     inp.length - r.br.src.cursor < fuel →
     ∃ r' res, firstByte fuel r = (r', .ok res) ∧ Win inp r' ∧ r'.bp = r.bp ∧
-      r'.searchPos = r.searchPos ∧ r'.state = r.state ∧ FBPost inp r' res := by
+      r'.searchPos = r.searchPos ∧ r'.state = r.state ∧ r'.log = r.log ∧ r'.pol = r.pol ∧
+      r'.br.cap = r.br.cap ∧ FBPost inp r' res := by
   intro fuel
   induction fuel with
   | zero => intro r _ h; omega
@@ -74,7 +75,7 @@ theorem firstByte_spec {inp : List UInt8} : ∀ (fuel : Nat) (r : Reader), FB in
     · -- nothing more to read: only a blank rest is left
       subst hn0
       refine ⟨{ r with br := br2 }, none, firstByte_succ_zero f r br2 hfill, ⟨hwb2, hw.pol⟩, rfl, rfl,
-        rfl, ?_⟩
+        rfl, rfl, rfl, hcap2, ?_⟩
       show (skipBlank (lines inp) 0 1).1 = []
       have hcur : r.br.src.cursor = inp.length := by omega
       have hwin := hw.b.win
@@ -98,7 +99,7 @@ theorem firstByte_spec {inp : List UInt8} : ∀ (fuel : Nat) (r : Reader), FB in
         obtain ⟨ln', pos', c⟩ := x
         simp only [Nat.sub_zero] at hbs
         obtain ⟨_, hpos, hskip, hhead, hl⟩ := hbs
-        refine ⟨{ r with br := br2 }, some (ln', pos', c), rfl, hw2, rfl, rfl, rfl, ?_⟩
+        refine ⟨{ r with br := br2 }, some (ln', pos', c), rfl, hw2, rfl, rfl, rfl, rfl, rfl, hcap2, ?_⟩
         have e : (inp.drop (base r)).drop pos' = inp.drop (pos' + base r) := by
           rw [List.drop_drop, Nat.add_comm]
         rw [e] at hskip hl
@@ -143,8 +144,8 @@ theorem firstByte_spec {inp : List UInt8} : ∀ (fuel : Nat) (r : Reader), FB in
             rw [e1, e2, e3, hfb.skip, hskip]
         have hlen2 : br2.buf.length = r.br.buf.length + n := by
           rw [hbuf2, List.length_append, List.length_take, List.length_drop]; omega
-        obtain ⟨r', res, hres, hw', hbp', hsp', hst', hpost⟩ := ih _ hfb3
+        obtain ⟨r', res, hres, hw', hbp', hsp', hst', hlog', hpol', hcap', hpost⟩ := ih _ hfb3
           (by show inp.length - br2.src.cursor < f; rw [hcur2]; omega)
-        exact ⟨r', res, hres, hw', hbp', hsp', hst', hpost⟩
+        exact ⟨r', res, hres, hw', hbp', hsp', hst', hlog', hpol', by rw [hcap']; exact hcap2, hpost⟩
 
 end SeqIo.Fasta
